@@ -322,7 +322,13 @@ fn roundtrip(name: &str, a: &[String]) -> Option<String> {
     let index: u128 = a[2].parse().ok()?;
     let tokp: u128 = a[3].parse().ok()?;
     let mut rnd = move || { seed = seed.wrapping_mul(6364136223846793005).wrapping_add(1442695040888963407); (seed >> 33) as u128 };
-    let mut market = TestMarket::<u128, 20>::default();
+    // optional 5th / 6th argument: positive / negative position impact factor (default configuration otherwise)
+    let mut market = if a.len() >= 6 {
+        let mut config = gmsol_model::test::TestMarketConfig::<u128, 20>::default();
+        config.position_impact_params = gmsol_model::params::PriceImpactParams::builder()
+            .exponent(200_000_000_000_000_000_000).positive_factor(a[4].parse().ok()?).negative_factor(a[5].parse().ok()?).build();
+        TestMarket::<u128, 20>::with_config(config)
+    } else { TestMarket::<u128, 20>::default() };
     let prices = Prices::new_for_test(index, index, tokp);
     if let Err(e) = market.deposit(10_000_000 * UNIT / index.max(1) + 1, 0, prices).and_then(|a| a.execute()) { return Some(format!("SETUP-ERR {e}")); }
     if let Err(e) = market.deposit(0, 10_000_000 * UNIT / tokp.max(1) + 1, prices).and_then(|a| a.execute()) { return Some(format!("SETUP-ERR {e}")); }
@@ -330,7 +336,7 @@ fn roundtrip(name: &str, a: &[String]) -> Option<String> {
     let mut others: Vec<TestPosition<u128, 20>> = vec![TestPosition::long(true), TestPosition::long(false), TestPosition::short(true), TestPosition::short(false)];
     for k in 0..4 {
         if rnd() % 4 == 0 { continue; }
-        let size = (10 + rnd() % 5000) * UNIT;
+        let size = (10 + rnd() % 50_000) * UNIT;
         let col_price = if k % 2 == 0 { index } else { tokp };
         let col = size / 3 / col_price.max(1) + 1;
         let saved = market.clone(); let sp = others[k];
